@@ -60,3 +60,21 @@ Proof.
   - intros Hb. apply HninD. rewrite <- OD. apply in_or_app. left; exact Hb.
 Qed.
 End X.
+
+(** Non-vacuity of [stored_before_deleted_delivery_partial] (the auditor's instance): the consumer
+    has finished stored(1) and begun stored(2) when deleted(2) is about to be emitted. *)
+Example delivery_partial_instance :
+  let pre := [(true, Emit nat 1); (true, Move nat 0); (true, Emit nat 2); (true, Move nat 0); (true, Move nat 0)] in
+  let '(ss, ds, o) := xrun nat (binit nat 1) (binit nat 1) pre in
+  pending nat (nth 0 ss (lst_init nat)) = [] /\ In 2 (emitted nat (proj nat true pre)) /\ ~ In 2 (emitted nat (proj nat false pre)) /\
+  In 2 (begun nat 0 (oproj nat true o)) /\ ~ In 2 (begun nat 0 (oproj nat false o)).
+Proof. vm_compute. repeat split; auto; intros []. Qed.
+
+(** Scope of the emission-order theorems (EventsOrder, EventsHistory clause 5): SEQUENTIAL
+    histories. Under concurrent operations deleted(x) can be EMITTED before stored(x) without any
+    oversize message: StoreManager.Deliver emits stored(x) only after AddMessage(x) has returned,
+    while a store emits deleted(x) from inside the operation that removes x (another delivery's cap
+    or size eviction, a delete, a retention removal). Open finding
+    K-C16-concurrent-stored-after-deleted; witness on the real code: kind cdeliver (go/cmd/c07/sd/cdeliver.go).
+    The store models here have no interleaving semantics (that is C09's Conc.v), so there is no
+    model-level statement; the finding is recorded by its witness and in NOT_PROVED. *)
